@@ -9,7 +9,9 @@
 //   and handler sends to ranks >= g are not issued (a forward to a rank >= g is dropped).
 //   Script line `T <J>`: TWO containers of the same type are alive at once on the communicator; key k belongs to
 //   container (k >> 20) >= J (disjoint key sets, same cache slots), operations interleave as the script says.
-//   mode  cset | rmap | rarr | rbkvec | rbkbag | rbkbag2 (input bag lives on a SECOND ygm::comm over the same ranks
+//   mode  cset | rmap | rarr | rswapk | rswapr | rbkvec | rbkbag | rbkbag2
+//         rswapk / rswapr: reductions into map A through an adapter, A.swap(B) at every script barrier but the last, more
+//         reductions into A (adapter kept alive across the swap / re-created after it); prints A then B (input bag lives on a SECOND ygm::comm over the same ranks
 //         and still has un-barriered async_inserts when reduce_by_key_map is called)
 //   opid  0 sum  1 max  2 xor  |  operators for which the value-initialised T{} (0) is NOT neutral:
 //         3 min  4 product mod 1000003  5 bitwise and  6 max of the values read as signed 64-bit (negatives)
@@ -22,6 +24,9 @@
 //   <rank> n <k> <cnt>             cset only: verif_cache_insert_n(k, cnt) — as if k had been inserted cnt times on this rank
 //                                  (one real cache_insert, then cnt-1 added to the cached count); reaches the INT32_MAX guard
 //   <rank> b                       barrier (every rank has the same number of them)
+//   <rank> M+ / <rank> M-          the main program holds a ygm::detail::interrupt_mask over the ops in between (no barrier
+//                                  inside); events M+ / M- bracket its lifetime: no handler may start (X+) in between
+//   <rank> p                       local_progress() (events P+ / P-)
 // Events on the coordinator's ordered log (only while tracing is on, i.e. during the script):
 //   ib k v / ie     harness calls async_insert / async_reduce        hb / he   harness handler body
 //   sb / se         harness's own comm.async (not a container send)  bb / be   barrier
@@ -34,6 +39,7 @@
 #define HC_OWN_HOOK
 #include "hcommon.hpp"
 #include <ygm/comm.hpp>
+#include <ygm/detail/interrupt_mask.hpp>
 #include <ygm/container/counting_set.hpp>
 #include <ygm/container/map.hpp>
 #include <ygm/container/array.hpp>
@@ -102,7 +108,7 @@ struct Red {   // stateless (the library calls it through a null pointer); the o
 };
 
 struct op_t { int rank; char kind; long d; uint64_t k, v; long d2; uint64_t k2, v2; };
-struct script_t { std::vector<uint64_t> universe; uint64_t len = 0; uint64_t twinJ = 0; std::vector<op_t> all; std::vector<op_t> ops; };
+struct script_t { std::vector<uint64_t> universe; uint64_t len = 0; uint64_t twinJ = 0; size_t nquery = ~(size_t)0 /* Q n: only the first n keys of a container are queried one by one */; std::vector<op_t> all; std::vector<op_t> ops; };
 static script_t read_script(const char* path) {
   script_t s; std::ifstream in(path); std::string line;
   while (std::getline(in, line)) {
@@ -111,7 +117,9 @@ static script_t read_script(const char* path) {
     if (w == "U") { uint64_t k; while (ss >> k) s.universe.push_back(k); continue; }
     if (w == "L") { ss >> s.len; continue; }
     if (w == "T") { ss >> s.twinJ; continue; }
+    if (w == "Q") { ss >> s.nquery; continue; }
     op_t o{}; o.rank = atoi(w.c_str()); std::string kd; ss >> kd; o.kind = kd[0]; o.d2 = -1;
+    if (kd == "M+") o.kind = '('; else if (kd == "M-") o.kind = ')';
     if (o.kind == 'i' || o.kind == 'n') ss >> o.k >> o.v;
     else if (o.kind == 'h') ss >> o.d >> o.k >> o.v >> o.d2 >> o.k2 >> o.v2;
     s.all.push_back(o);
@@ -125,7 +133,11 @@ static std::string u(uint64_t x) { return std::to_string((unsigned long long)x);
 template <typename Ptr, typename H>
 static void run_script(const script_t& s, Ptr pa, Ptr pb, H, std::function<void(int)> after_barrier) {
   int phase = 0, size = g_world->size();
+  std::unique_ptr<ygm::detail::interrupt_mask> user_mask;
   for (const op_t& o : s.ops) {
+    if (o.kind == '(') { evs("M+"); user_mask.reset(new ygm::detail::interrupt_mask(*g_world)); continue; }
+    if (o.kind == ')') { user_mask.reset(); evs("M-"); continue; }
+    if (o.kind == 'p') { evs("P+"); g_world->local_progress(); evs("P-"); continue; }
     if (o.kind == 'i') { H::insert(sel(o.k) ? pb : pa, o.k, o.v); }
     else if (o.kind == 'n') { H::insert_n(sel(o.k) ? pb : pa, o.k, o.v); }
     else if (o.kind == 'h') { if (o.d < size) { evs("sb"); g_world->async((int)o.d, H(), pa, pb, o.k, o.v, (int)o.d2, o.k2, o.v2); evs("se"); } }
@@ -171,7 +183,7 @@ static uint64_t array_init() {
 
 static void report_cset(CS& cs, const script_t& s, int c, ygm::comm& comm) {
   hc::out("cont " + std::to_string(c));
-  std::vector<uint64_t> uni; for (uint64_t k : s.universe) if (sel(k) == c) uni.push_back(k);
+  std::vector<uint64_t> uni; for (uint64_t k : s.universe) if (sel(k) == c && uni.size() < s.nquery) uni.push_back(k);
   for (uint64_t k : uni) hc::out("count " + u(k) + " " + u(cs.count(HK(k))));
   hc::out("countall " + u(cs.count_all()));
   hc::out("size " + u(cs.size()));
@@ -247,6 +259,27 @@ static void scenario(ygm::comm& comm, MPI_Comm mc, const std::string& name, cons
     evs("be");
     g_trace = false;
     dump("kv");
+  } else if (mode == "rswapk" || mode == "rswapr") {
+    using M = ygm::container::map<uint64_t, HV>;
+    M ma(comm), mb(comm);
+    for (uint64_t k : s.universe) hc::out("own " + u(k) + " " + std::to_string(ma.owner(k)));
+    auto dump1 = [&](M& m, const std::string& tag) { std::ostringstream o; o << tag; m.for_all([&o](const uint64_t& k, HV& v) { o << " " << k << ":" << v.val << ":" << v.key; }); hc::out(o.str()); };
+    size_t nb = 0; for (const op_t& o : s.ops) if (o.kind == 'b') ++nb;
+    size_t i = 0, seen = 0;
+    auto batch = [&](auto& ra) {   // contributions up to the next script barrier
+      for (; i < s.ops.size() && s.ops[i].kind != 'b'; ++i) if (s.ops[i].kind == 'i') ra.async_reduce(s.ops[i].k, HV(s.ops[i].v, s.ops[i].k));
+      ++i; ++seen;
+    };
+    if (mode == "rswapk") {
+      auto ra = ygm::container::detail::make_reducing_adapter(ma, Red());
+      while (seen < nb) { batch(ra); comm.barrier(); if (seen < nb) ma.swap(mb); }
+    } else {
+      while (seen < nb) {
+        { auto ra = ygm::container::detail::make_reducing_adapter(ma, Red()); batch(ra); }
+        if (seen < nb) ma.swap(mb);
+      }
+    }
+    dump1(ma, "kv"); dump1(mb, "kv");
   } else {   // reduce_by_key_map over a local vector or a distributed bag of (key, value) pairs
     std::vector<std::pair<uint64_t, HV>> vec;
     for (const op_t& o : s.ops) if (o.kind == 'i') vec.push_back({o.k, HV(o.v, o.k)});
